@@ -2,7 +2,7 @@
    mode `bends R`:  same sweep as harness/c05_bends.cpp; prints the closed-form spec value, the brute-force BFS value
                     (integer offsets only) and whether the witness path is valid and attains the value.
    mode `routes`:   stdin: one line per connector
-                      pen ns (x0 y0 x1 y1)*ns sx sy dx dy n (x y)*n
+                      pen ns (x0 y0 x1 y1)*ns sx sy dx dy sd ad n (x y)*n   (sd/ad: masks over N=1,E=2,S=4,W=8 for first / arrival segment)
                     (n = number of points of the implementation's route, integers); stdout per line:
                       <oracle status> <oracle cost> <impl status> <impl cost> | oracle path
                     status: ok / unreachable / fuel / badpath ; impl status: ok / invalid *)
@@ -49,16 +49,17 @@ let routes_mode () =
       let rs = List.init ns (fun _ -> let a = next () in let b = next () in let c = next () in let d = next () in
                  { rx0 = z_of_int a; ry0 = z_of_int b; rx1 = z_of_int c; ry1 = z_of_int d }) in
       let sx = next () in let sy = next () in let dx = next () in let dy = next () in
+      let sd = z_of_int (next ()) in let ad = z_of_int (next ()) in
       let n = next () in
       let route = List.init n (fun _ -> let x = next () in let y = next () in (z_of_int x, z_of_int y)) in
       let src = (z_of_int sx, z_of_int sy) and dst = (z_of_int dx, z_of_int dy) in
       let zpen = z_of_int pen in
-      let (os, oc, op) = match oracle rs src dst zpen (nat_of_int 200) with
+      let (os, oc, op) = match oracle_dirs rs src dst zpen sd ad (nat_of_int 200) with
         | OR_cost (c, p) -> ("ok", int_of_z c, p)
         | OR_unreachable -> ("unreachable", -1, [])
         | OR_out_of_fuel -> ("fuel", -1, [])
         | OR_bad_path (c, p) -> ("badpath", int_of_z c, p) in
-      let (is, ic) = match check_path rs src dst zpen route with
+      let (is, ic) = match check_path_dirs rs src dst zpen sd ad route with
         | Some c -> ("ok", int_of_z c) | None -> ("invalid", -1) in
       Printf.printf "%s %d %s %d |" os oc is ic;
       List.iter (fun (x, y) -> Printf.printf " %d %d" (int_of_z x) (int_of_z y)) op;
